@@ -20,9 +20,9 @@ func ruleC04(prog *Program, rep *Report) {
 	ruleSortedEmit(prog, rep)
 	ruleClamp(prog, rep)
 	// a Writer shared through the pool or left half-configured by the previous call does not emit the text of the in-memory call
-	rulePoolPut(prog, rep)
-	ruleReturnAlias(prog, rep, "C04")
-	ruleEntryParity(prog, rep)
+	rulePoolPut(prog, rep, "oj.Writer", "pretty.Writer")
+	ruleReturnAlias(prog, rep, "C04", "oj", "pretty")
+	ruleEntryParity(prog, rep, "oj.Writer")
 }
 
 func mentionsField(n ast.Node, names map[string]bool) bool {
